@@ -110,7 +110,7 @@ fn layer_menu(rich: bool) -> Vec<LayerSpec> {
                             continue;
                         }
                         for cells in contents(w, h, rich) {
-                            v.push(LayerSpec { w, h, ox, oy, mode, alpha, visible, cells, font_page: if rich && mode == 0 && !alpha { 1 } else { 0 } });
+                            v.push(LayerSpec { w, h, ox, oy, mode, alpha, visible, cells, font_page: if rich && mode == 0 && !alpha { 1 } else if rich && mode == 1 { 2 } else { 0 } });
                         }
                     }
                 }
@@ -239,6 +239,7 @@ fn check_stack(buf: &mut Buffer, st: &Stack, ctx: &mut Ctx) {
             let mut e = Layer::new("empty", (4, 3));
             e.properties.has_alpha_channel = true;
             e.properties.mode = mode;
+            e.default_font_page = 5;
             e.set_offset((-1, -1));
             ls.insert(at, e);
             set_layers(buf, ls);
@@ -289,7 +290,7 @@ fn check_stack(buf: &mut Buffer, st: &Stack, ctx: &mut Ctx) {
     // L4: an opaque normal layer hides everything beneath it inside its rectangle
     for i in 1..n {
         let l = specs[i];
-        if l.mode == 0 && !l.alpha && l.visible {
+        if !l.alpha && l.visible {
             let mut ls = built.clone();
             for (j, low) in ls.iter_mut().enumerate().take(i) {
                 let was = low.properties.is_visible;
@@ -317,8 +318,106 @@ fn check_stack(buf: &mut Buffer, st: &Stack, ctx: &mut Ctx) {
             if a2 != b2 {
                 let k = a2.iter().zip(b2.iter()).position(|(x, y)| x != y).unwrap();
                 ctx.violation(
-                    "diff:layers:L4-opaque-layer-hides-below",
+                    if l.mode == 0 { "diff:layers:L4-opaque-layer-hides-below".to_string() } else { format!("diff:layers:L4-opaque-layer-hides-below:{}", ["normal", "chars", "attributes"][l.mode as usize]) },
                     json!({"stack(bottom first)": stack_json(), "opaque_layer": i, "before": format!("{:?}", a2[k]), "after": format!("{:?}", b2[k])}),
+                );
+                return;
+            }
+        }
+    }
+    // L8: topmost first among the modifier layers: where a visible chars (attributes) layer has a cell, the cells of a chars
+    //     (attributes) layer further down do not matter
+    for j in 1..n {
+        let up = specs[j];
+        if up.mode == 0 || !up.visible {
+            continue;
+        }
+        for i in 0..j {
+            if specs[i].mode != up.mode {
+                continue;
+            }
+            let mut ls = built.clone();
+            let was = ls[i].properties.is_visible;
+            ls[i].properties.is_visible = true;
+            for y in 0..specs[i].h {
+                for x in 0..specs[i].w {
+                    if ls[i].get_char((x, y)).is_visible() {
+                        ls[i].set_char((x, y), AttributedChar::new('Q', TextAttribute::new(9, 3)));
+                    }
+                }
+            }
+            ls[i].properties.is_visible = was;
+            set_layers(buf, ls);
+            ctx.count("transitions", 1);
+            let s = sample(buf, b, 0, 0);
+            let w = b.2 - b.0;
+            for (k, (x, y)) in base.iter().zip(s.iter()).enumerate() {
+                let (px, py) = (b.0 + k as i32 % w, b.1 + k as i32 / w);
+                let (lx, ly) = (px - up.ox, py - up.oy);
+                let covered = up.cells.iter().rev().find(|c| c.0 == lx && c.1 == ly).map(|c| matches!(c.2, Kind::A | Kind::B)).unwrap_or(false) && lx >= 0 && ly >= 0 && lx < up.w && ly < up.h;
+                if covered && x != y {
+                    ctx.violation(
+                        format!("diff:layers:L8-lower-modifier-layer-wins:{}", ["normal", "chars", "attributes"][up.mode as usize]),
+                        json!({"stack(bottom first)": stack_json(), "upper_layer": j, "edited_lower_layer": i, "position": [px, py], "before": format!("{x:?}"), "after": format!("{y:?}")}),
+                    );
+                    return;
+                }
+            }
+        }
+    }
+    // L9: invisible cells of alpha layers never influence the picture, whatever else they hold (a character, colours, other flags)
+    for i in 0..n {
+        if !specs[i].alpha {
+            continue;
+        }
+        let mut ls = built.clone();
+        let mut any = false;
+        for y in 0..specs[i].h {
+            for x in 0..specs[i].w {
+                if !ls[i].get_char((x, y)).is_visible() {
+                    let mut c = AttributedChar::new('Z', TextAttribute::new(13, 4));
+                    c.attribute.attr |= icy_engine::attribute::INVISIBLE | icy_engine::attribute::UNDERLINE;
+                    if (ls[i].lines.len() as i32) <= y {
+                        ls[i].lines.resize(y as usize + 1, icy_engine::Line::default());
+                    }
+                    ls[i].lines[y as usize].set_char(x, c);
+                    any = true;
+                }
+            }
+        }
+        if !any {
+            continue;
+        }
+        set_layers(buf, ls);
+        ctx.count("transitions", 1);
+        let s = sample(buf, b, 0, 0);
+        if s != base {
+            report(ctx, "L9-invisible-cell-with-content", json!({"layer": i, "mode": specs[i].mode}), &base, &s);
+            return;
+        }
+    }
+    // L10: topmost first: where the topmost visible layer covering a position is a normal layer with a visible cell, that cell is
+    //      shown - its character, and every colour of it that is not the transparent colour
+    {
+        let w = b.2 - b.0;
+        for (k, o) in base.iter().enumerate() {
+            let (px, py) = (b.0 + k as i32 % w, b.1 + k as i32 / w);
+            let top = specs.iter().rev().find(|l| l.visible && px >= l.ox && py >= l.oy && px < l.ox + l.w && py < l.oy + l.h);
+            let Some(top) = top else { continue };
+            if top.mode != 0 {
+                continue;
+            }
+            let Some(cell) = top.cells.iter().rev().find(|c| c.0 == px - top.ox && c.1 == py - top.oy) else { continue };
+            if cell.2 == Kind::Invisible {
+                continue;
+            }
+            let c = kind_char(cell.2);
+            let fg_ok = c.attribute.get_foreground() == TRANSPARENT || o.fg == c.attribute.get_foreground();
+            let bg_ok = c.attribute.get_background() == TRANSPARENT || o.bg == c.attribute.get_background();
+            if !o.visible || o.ch != c.ch as u32 || !fg_ok || !bg_ok {
+                ctx.violation(
+                    format!("diff:layers:L10-top-cell-not-shown:{}", if matches!(cell.2, Kind::TopHalf | Kind::BotHalf) { "transparent-colour-cell" } else { "solid-cell" }),
+                    json!({"stack(bottom first)": stack_json(), "position": [px, py], "top_cell": format!("{:?}", cell.2), "shown": format!("{o:?}")}),
                 );
                 return;
             }
@@ -569,6 +668,9 @@ enum Job {
     /// cells of two font pages next to each other: every glyph that is blank in its own page between neighbours of another page
     MixedRows { page: usize },
     OptStacks { first: u64, count: u64, depth: u32 },
+    /// colours encoded as RGB values in the attribute (incl. RGB black, whose encoding is also the transparent colour) on alpha-only and
+    /// opaque stacks, and layers whose default font page differs from the page of their cells
+    OptSpecial { variant: usize },
 }
 
 struct Layers {
@@ -609,6 +711,9 @@ fn build(prop: &str, tier: &str) -> Layers {
         }
         for page in 0..=42usize {
             jobs.push(Job::MixedRows { page });
+        }
+        for variant in 0..8 {
+            jobs.push(Job::OptSpecial { variant });
         }
         let depth = if thorough { 3 } else { 2 };
         let total = (small.len() as u64).pow(depth);
@@ -651,6 +756,49 @@ impl Engine for Layers {
             }
             Job::Rows { page, lo, hi } => run_rows(*page, *lo..*hi, ctx),
             Job::MixedRows { page } => run_mixed_rows(*page, ctx),
+            Job::OptSpecial { variant } => {
+                let v = *variant;
+                let rgb = |r: u32, g: u32, b: u32| 0x8000_0000u32 | (r << 16) | (g << 8) | b;
+                let fgs = [rgb(0, 0, 0), rgb(255, 128, 64), rgb(0, 0, 170), 7, 0];
+                let bgs = [7, rgb(17, 34, 51), rgb(0, 0, 0), 0, 1];
+                let glyphs = [b'A' as u32, 219, 32, 0, 223];
+                let alpha = v & 1 == 1;
+                let two = v & 2 == 2;
+                let dfp = v & 4 == 4;
+                let mut buf = Buffer::new((fgs.len() as i32 * 2 + 1, (bgs.len() * glyphs.len()) as i32 + 1));
+                if dfp {
+                    buf.set_font(32, icy_engine::BitFont::from_ansi_font_page(32).unwrap());
+                }
+                let mut l = Layer::new("cells", buf.get_size());
+                l.properties.has_alpha_channel = alpha;
+                if dfp {
+                    l.default_font_page = 32;
+                }
+                for (bi, bg) in bgs.iter().enumerate() {
+                    for (gi, g) in glyphs.iter().enumerate() {
+                        for (fi, fg) in fgs.iter().enumerate() {
+                            for bold in [false, true] {
+                                let mut a = TextAttribute::new(*fg, *bg);
+                                a.set_is_bold(bold);
+                                // the last column and the last row stay unfilled
+                                l.set_char((fi as i32 * 2 + bold as i32, (bi * glyphs.len() + gi) as i32), AttributedChar::new(char::from_u32(*g).unwrap(), a));
+                            }
+                        }
+                    }
+                }
+                let mut ls = vec![l];
+                if two {
+                    let mut under = Layer::new("under", buf.get_size());
+                    under.properties.has_alpha_channel = true;
+                    under.set_char((0, 0), AttributedChar::new('u', TextAttribute::new(14, 2)));
+                    under.set_char((buf.get_width() - 1, buf.get_height() - 1), AttributedChar::new('v', TextAttribute::new(1, 3)));
+                    ls.insert(0, under);
+                }
+                buf.layers = ls;
+                ctx.count("nontrivial", 1);
+                check_optimizer(&buf, json!({"cells": "5 foregrounds (RGB black, 2 RGB colours, 7, 0) x bold x 5 backgrounds (7, RGB, RGB black, 0, 1) x glyphs A, 219, 32, 0, 223; last row and column unfilled",
+                    "layer_has_alpha": alpha, "second_alpha_layer_beneath": two, "default_font_page_32(8x8)": dfp}), "rgb-colours-and-default-font-page", ctx);
+            }
             Job::OptStacks { first, count, depth } => {
                 let depth = *depth;
                 for i in *first..*first + *count {
@@ -692,6 +840,7 @@ impl Engine for Layers {
                 "first_stack": self.stack(*rich, *depth, *first).iter().map(|l| l.json()).collect::<Vec<_>>(), "key": "layer-stacks"}),
             Job::Rows { page, lo, hi } => json!({"engine": "optimizer-rows", "idx": idx, "font_page": page, "middle_glyphs": [lo, hi], "key": "optimizer-rows"}),
             Job::MixedRows { page } => json!({"engine": "optimizer-mixed-page-rows", "idx": idx, "font_page": page, "key": "optimizer-mixed-page-rows"}),
+            Job::OptSpecial { variant } => json!({"engine": "optimizer-special-documents", "idx": idx, "variant": variant, "key": "optimizer-special-documents"}),
             Job::OptStacks { first, count, depth } => json!({"engine": "optimizer-stacks", "idx": idx, "first": first, "count": count, "layers": depth, "key": "optimizer-stacks"}),
         }
     }
